@@ -355,6 +355,15 @@ pub fn mk_sllbi(loc: u8, dt: u8, mts: u8, unit: u64, ni: u32, nt: u32, ops: &[Sl
         M::Size64k,
     ][mts as usize];
     let mut s = hmat::SystemLocality::new(lt, d, m, unit, ni as usize, nt as usize);
+    // The proximity-domain lists are caller data with no specified default: every entry is supplied
+    // (zero unless an op sets it), so that what `new` leaves there never enters a verdict. (Matrix
+    // cells do have a specified default, 0xFFFF -- C12 -- and are left alone.)
+    for i in 0..ni as usize {
+        s.set_initiator_value(i, 0);
+    }
+    for j in 0..nt as usize {
+        s.set_target_value(j, 0);
+    }
     for (k, o) in ops.iter().enumerate() {
         if k <= 2 || k == ops.len() / 2 {
             crate::aml::build::peek(&s); // serialised between two setter calls
